@@ -35,7 +35,7 @@ STUB = ["numpy.random.* : homodyne outcomes dictated by a per-(mode, k) tape so 
 ASSUMPTIONS = [
     "differential oracle: original vs optimised on the same backend (no gate physics is trusted)",
     "ThermalLossChannel merges are exercised on the bosonic backend and on one-mode Gaussian registers only (the Gaussian backend's thermal loss touches spectator modes - C05's territory - so merely reordering commuting commands changes its result)",
-    "Fock runs: cutoff 8, |parameters| <= 0.1 for Vgate/Kgate-heavy circuits, tolerance 2e-4 (merging changes where truncation happens)",
+    "Fock runs: cutoff 8, small parameters, tolerance 1e-3 (merging changes where truncation happens)",
 ]
 
 
@@ -69,7 +69,7 @@ def generate(seed, tier, batch):
     backend = batch
     big = tier == "thorough"
     n = r.randint(1, 3 if backend != "fock" else 2)
-    s = 0.3 if backend == "fock" else 1.0
+    s = 0.25 if backend == "fock" else 1.0
     fams = ["Dgate", "Xgate", "Zgate", "Sgate", "Pgate", "Rgate", "Fourier", "LossChannel", "Coherent", "Squeezed", "Vacuum"]
     if backend == "fock":
         fams += ["Kgate", "Vgate"]
@@ -158,7 +158,7 @@ def execute(script, w):
 
     backend = script["backend"]
     feats = ["backend=" + backend]
-    tol = 2e-4 if backend == "fock" else 1e-8
+    tol = 1e-3 if backend == "fock" else 1e-8  # merging moves where the Fock truncation bites (squeezing-like gates at cutoff 8)
     fallback = SeededOutcomes(1, w)
     tscript = dict(script, backend=backend)
     tape = Tape(tscript, w, fallback)
